@@ -121,7 +121,14 @@ fn case_strategy(tier: Tier) -> BoxedStrategy<Case> {
         prop::collection::vec(prop::sample::select(vec!["pkgdb.byfile.db", "stray-1.0", "README", "+COMMENT", "foo-9.9"]).prop_map(String::from), 0..3),
     )
         .prop_map(|(dirs, stray_files)| {
-            // distinct names by construction
+            // distinct names by construction (in a large tree every name gets its index in front,
+            // so that the tree really has that many entries)
+            let mut dirs = dirs;
+            if dirs.len() >= 100 {
+                for (i, d) in dirs.iter_mut().enumerate() {
+                    d.name = format!("n{}{}", i, d.name);
+                }
+            }
             let mut seen = std::collections::BTreeSet::new();
             let dirs: Vec<Dir> = dirs.into_iter().filter(|d| seen.insert(d.name.clone())).collect();
             let stray_files: Vec<String> = stray_files.into_iter().filter(|f| seen.insert(f.clone())).collect();
